@@ -451,6 +451,20 @@ def analysis_case_st(draw, tier):
         row = dict(ls["bpms"][0])
         row.update(offset=t, bpm=draw(st.one_of(st.sampled_from(vals), B.bpm_st)))
         ls["bpms"].append(row)
+    if draw(st.integers(0, 7)) == 0:
+        # an exact tie on purpose: equal segments alternating between two bpm values, last object at the end
+        n = 2 * draw(st.integers(1, 3))
+        v = draw(st.lists(st.sampled_from([100.0, 120.0, 150.0, 200.0]), min_size=2, max_size=2, unique=True))
+        proto = dict(ls["bpms"][0])
+        ls["bpms"] = [dict(proto, offset=1000.0 * i, bpm=v[i % 2]) for i in range(n)]
+        for name, rows in ls.items():
+            if name != "bpms":
+                ls[name] = [r for r in rows if 0.0 <= r["offset"] <= 1000.0 * n]
+        if ls["hits"]:
+            ls["hits"][0]["offset"] = 1000.0 * n
+        else:
+            ls["holds"] = (ls["holds"] or [])[:0]
+            ls["bpms"].append(dict(proto, offset=1000.0 * n, bpm=v[0]))
     override = draw(st.one_of(st.sampled_from([120.0, 100.0, 200]), B.bpm_st))
     return dict(chart=chart, perm=draw(perm_st()), override=override)
 
@@ -809,15 +823,15 @@ def check_write_bms(case, ctx):
 
 # --------------------------------------------------------------------------- #
 SUBS = [
-    Sub("rate", check_rate, strategy=rate_case_st, examples={"quick": 240, "thorough": 150}, shards={"quick": 1, "thorough": 16}),
-    Sub("convert", check_convert, strategy=convert_case_st, examples={"quick": 200, "thorough": 150}, shards={"quick": 2, "thorough": 16}),
-    Sub("full_ln", check_full_ln, strategy=full_ln_case_st, examples={"quick": 400, "thorough": 250}, shards={"quick": 1, "thorough": 16}),
-    Sub("analysis", check_analysis, strategy=analysis_case_st, examples={"quick": 230, "thorough": 200}, shards={"quick": 3, "thorough": 16}),
-    Sub("hitsound", check_hitsound, strategy=hitsound_case_st, examples={"quick": 200, "thorough": 150}, shards={"quick": 2, "thorough": 16}),
-    Sub("write_osu", check_write_osu, strategy=write_osu_case_st, examples={"quick": 280, "thorough": 150}, shards={"quick": 1, "thorough": 16}),
-    Sub("write_qua", check_write_qua, strategy=write_qua_case_st, examples={"quick": 320, "thorough": 150}, shards={"quick": 1, "thorough": 16}),
-    Sub("write_sm", check_write_sm, strategy=write_sm_case_st, examples={"quick": 220, "thorough": 100}, shards={"quick": 3, "thorough": 16}),
-    Sub("write_bms", check_write_bms, strategy=write_bms_case_st, examples={"quick": 340, "thorough": 120}, shards={"quick": 2, "thorough": 16}),
+    Sub("rate", check_rate, strategy=rate_case_st, examples={"quick": 240, "thorough": 220}, shards={"quick": 1, "thorough": 16}),
+    Sub("convert", check_convert, strategy=convert_case_st, examples={"quick": 200, "thorough": 220}, shards={"quick": 2, "thorough": 16}),
+    Sub("full_ln", check_full_ln, strategy=full_ln_case_st, examples={"quick": 400, "thorough": 400}, shards={"quick": 1, "thorough": 16}),
+    Sub("analysis", check_analysis, strategy=analysis_case_st, examples={"quick": 230, "thorough": 300}, shards={"quick": 3, "thorough": 16}),
+    Sub("hitsound", check_hitsound, strategy=hitsound_case_st, examples={"quick": 200, "thorough": 220}, shards={"quick": 2, "thorough": 16}),
+    Sub("write_osu", check_write_osu, strategy=write_osu_case_st, examples={"quick": 280, "thorough": 220}, shards={"quick": 1, "thorough": 16}),
+    Sub("write_qua", check_write_qua, strategy=write_qua_case_st, examples={"quick": 320, "thorough": 220}, shards={"quick": 1, "thorough": 16}),
+    Sub("write_sm", check_write_sm, strategy=write_sm_case_st, examples={"quick": 220, "thorough": 150}, shards={"quick": 3, "thorough": 16}),
+    Sub("write_bms", check_write_bms, strategy=write_bms_case_st, examples={"quick": 340, "thorough": 180}, shards={"quick": 2, "thorough": 16}),
 ]
 
 MANIFEST = dict(
